@@ -1,5 +1,5 @@
 (* C02 - Jerk (T3) move prediction equals the third-order firmware recurrence.  Statements only. *)
-From Plotink Require Import Base.Prelude Spec.Firmware Model.EbbCalc Model.EbbCalcRnd Proofs.EbbCalcProofs Proofs.EbbRndProofs Proofs.EbbClosed Corr.C02 Base.Rnd Proofs.RndProofs.
+From Plotink Require Import Base.Prelude Spec.Firmware Model.EbbCalc Model.EbbCalcRnd Proofs.EbbCalcProofs Proofs.EbbRndProofs Proofs.EbbClosed Corr.C02 Base.Rnd Proofs.RndProofs Proofs.TruncFloat.
 Open Scope Z_scope.
 
 Theorem C02_exact_dist : forall (T : nat) rate accel jerk acc0, (1 <= T)%nat ->
@@ -80,6 +80,11 @@ Proof.
   apply C02_rate_float_exact; [intros x y; apply round_ne_comp; lia|intros x R; apply round_ne_exact; [lia|exact R]].
 Qed.
 
+(* int(accel / 2) and int(jerk / 6) as Python computes it - a binary64 quotient truncated by int() - is the truncating integer quotient the model uses (Z.quot),
+   for the executable round-to-nearest-even and every divisor up to 1024 *)
+Theorem C02_int_div_float : forall n d, 0 < d <= 2 ^ 10 -> Z.abs n <= 2 ^ 40 -> Qtrunc (round_ne 53 (iz n / iz d)) = Z.quot n d.
+Proof. intros n d. apply trunc_rounded_quotient; [intros x R; apply round_ne_exact; [lia|exact R]|intros x y; apply round_ne_mono; lia]. Qed.
+
 Print Assumptions C02_exact_dist.
 Print Assumptions C02_exact_rate.
 Print Assumptions C02_closed_form.
@@ -89,3 +94,4 @@ Print Assumptions C02_rounding.
 Print Assumptions C02_rate_float_exact.
 Print Assumptions C02_rounding_rne.
 Print Assumptions C02_rate_float_exact_rne.
+Print Assumptions C02_int_div_float.
